@@ -1,21 +1,201 @@
-import Hyeong.Model.Compile
+import Hyeong.Lemmas.CompFinal
+import Hyeong.Props.C01
+import Hyeong.Props.C02
+import Hyeong.Props.C10
 /-!
 # C03 — a compiled program behaves exactly like the interpreted program
+
+`HyC.compile`/`HyC.emit` is the model of `build_source` (compile.rs): an IR (prelude kind, captured text,
+restored level-2 state, block list) and its Rust text. `HyC.irRunN` is what the emitted `main` does at the
+level of the IR: one iteration of `while state < n { dispatch; block; state += 1 }` with the heart code on
+*block* indices; `Prog.run` adds the restore lines in front.
+
+Property theorems only. What is proved: for every program with the parser's command kinds, hangul
+counts and area tags, every input and every level, the executable's loop has — after every iteration —
+written exactly what the interpreter has written after some (later or equal) number of steps of the
+*unoptimised* program and stands the same way (running / normal end / exit 0|1 / encoding error n);
+with `C01.run_refines_spec` that is the language definition. What is not proved but tied by the check:
+that rustc accepts the text and that the prelude's `Stack::pop/push` and the command templates mean
+`popWrap`/`pushWrap`/`execCmd` (the emitted text is compared byte for byte with `emit`, and compiled
+programs are run against the definition).
 -/
 namespace HyC.C03
-open HyC HyE
+open HyC HyE HyP HyN
 
-/-- the blocks are a partition of the command list in order -/
-theorem blocks_flatten (b : BB) (cs : List Cmd) :
-    (b.addAll cs).1.done.flatten ++ (b.addAll cs).1.cur = b.done.flatten ++ b.cur ++ cs := by
-  induction cs generalizing b with
-  | nil => simp [BB.addAll]
-  | cons c cs ih =>
-    simp only [BB.addAll]
-    rw [ih]
-    unfold BB.add
-    split
-    · simp
-    · split <;> simp_all
+/-- blocks: the command list cut into non-empty pieces, every area-carrying command alone in its
+piece, and the compiler's command→block table sends each of them to the piece that starts with it -/
+theorem blocks_partition (p : List Cmd) :
+    Blocking p ((BB.mk [] []).addAll p).1.finish ((BB.mk [] []).addAll p).2 := by
+  simpa using (BInv.init.addAll p).finish
+
+/-- dispatch: for every number of blocks, the emitted `if state < mid {…} else {…}` cascade runs
+exactly block `state` -/
+theorem dispatch_selects (blocks : List (List Cmd)) (st : Nat) (h : st < blocks.length) :
+    (mkTree blocks.toArray blocks.length 0 blocks.length).select st = blocks[st] := by
+  rw [select_mkTree blocks.toArray blocks.length 0 blocks.length st (Nat.le_refl _) (Nat.zero_le _) (by omega)]
+  simp [Array.getD, h]
+
+/-- the loop of the compiled program simulates the interpreter block by block (any number type):
+from related configurations, after `k` iterations it has written what the interpreter has written
+after some `n ≥ k` steps and stands the same way -/
+theorem loop_refines_interpreter {N : Type} [NumOps N] {p : List Cmd} {blocks : List (List Cmd)} {bo : List Nat}
+    (hb : Blocking p blocks bo) (hok : ∀ c ∈ p, AreaOk c.area) (k : Nat) {c ci : Cfg N} (hr : Rel p blocks bo c ci) :
+    ∃ n, k ≤ n ∧ seen (irRunN blocks k ci) = seen (runN p n c) :=
+  irRunN_sim hb hok k hr
+
+/-- the restore lines of a level-2 program read back the stacks they were written from (up to the
+representation of NaN), for every state whose numbers are canonical rationals or NaN -/
+theorem restore_reads_back (size : Nat) (s : St NumI) (hs : Supp size s) (hv : ∀ i, LR NE (s.stacks i) (s.stacks i))
+    (cur : Nat) (last : Option Nat) (pts : List (Nat × Nat)) (start : Nat) :
+    (⟨stackTexts size s, cur, last, pts, start⟩ : Restore).parses = true ∧
+    ∀ i, LR NE ((⟨stackTexts size s, cur, last, pts, start⟩ : Restore).stackAt i) (s.stacks i) :=
+  restore_ok size s hs hv cur last pts start
+
+theorem seen_of_obs {N : Type} [NumOps N] {a b : Cfg N × Status} (h : obs a = obs b) : seen a = seen b := by
+  simp only [obs, Prod.mk.injEq] at h
+  simp only [seen, h.1, h.2.2]
+
+/-- Level 0. -/
+theorem compiled_level0 (p : List Cmd) (hok : ∀ c ∈ p, AreaOk c.area) (input : List Char) (k : Nat) :
+    ∃ n, k ≤ n ∧ (compile 0 0 [] (St.init : St NumI) (List.range 0) [] [] p).run input k = some (seen (runN p n (initCfg input))) := by
+  by_cases hp : p = []
+  · subst hp
+    refine ⟨k, Nat.le_refl _, ?_⟩
+    have : runN [] k (initCfg input) = (initCfg input, .ended) := runN_ended [] _ (by simp) k
+    rw [this]
+    simp [compile, Prog.run, seen, initCfg]
+  · obtain ⟨h1, h2, hb, hr⟩ := entry_plain 0 0 (by omega) p hp input
+    obtain ⟨n, hn, hs⟩ := irRunN_sim hb hok k hr
+    refine ⟨n, hn, ?_⟩
+    simp only [Prog.run, h1, ↓reduceIte, h2, Option.map_some]
+    rw [hs]; rfl
+
+/-- Levels 1 and 2 (main theorem). If `optimize` succeeds, the executable built from its result — captured
+text printed first, restored stacks / selected stack / labels / return target translated to block
+indices, loop entered at the first residual block — behaves, iteration by iteration, like the
+interpreter on the *original* program: there is an offset `j` (the pre-executed steps) such that after
+every number `k` of loop iterations the executable has written exactly what the interpreter has
+written after `j + n` steps for some `n ≥ k`, and stands the same way. In particular: it ends
+normally / exits with 0 or 1 / stops on unencodable output iff the interpreter does, with the same
+standard output and standard error. -/
+theorem compiled_equiv (budget level : Nat) (hl1 : 1 ≤ level) (p : List Cmd) (hk : ∀ c ∈ p, c.kind ≤ 5)
+    (hh : ∀ c ∈ p, 1 ≤ c.hangul) (hok : ∀ c ∈ p, AreaOk c.area) (input : List Char)
+    (code : List Cmd) (size : Nat) (r : Opt2 NumI)
+    (h : HyE.optimize (N := NumI) budget level p ⟨splitLines input, [], []⟩ = .ok (code, size, r)) :
+    ∃ j, ∀ k, ∃ n, k ≤ n ∧
+      (compile level size (code.take r.idx) r.m.1 (List.range size) r.m.2.out r.m.2.err (code.drop r.idx)).run input k =
+        some (seen (runN p (j + n) (initCfg input))) := by
+  obtain ⟨j, hj⟩ := C02.opt_equiv budget level p hk input code size r h
+  have hstdin : r.m.2.stdin = splitLines input := by
+    have := C10.optimize_pure (N := NumI) budget level p hh ⟨splitLines input, [], []⟩
+    rw [h] at this; exact this
+  have hw : (⟨splitLines input, r.m.2.out, r.m.2.err⟩ : World) = r.m.2 := by rw [← hstdin]
+  refine ⟨j, fun k => ?_⟩
+  by_cases hres : code.drop r.idx = []
+  · -- everything was pre-executed: the program only prints the captured text
+    refine ⟨k, Nat.le_refl _, ?_⟩
+    have hge : ¬ r.idx < code.length := by
+      have := List.drop_eq_nil_iff.mp hres; omega
+    have h1 := hj k
+    rw [runN_ended code _ hge k] at h1
+    have : seen (runN p (j + k) (initCfg input)) = (r.m.2, .ended) := by
+      have := seen_of_obs h1; simp only [seen] at this; exact this.symm
+    rw [this]
+    simp only [compile, hres, ↓reduceIte, Prog.run, hw]
+    simp
+  · have hcode : code = (optimize1 p).1 ∧ size = (optimize1 p).2 := by
+      unfold HyE.optimize at h
+      by_cases hl : level ≥ 2
+      · simp only [hl, ↓reduceIte] at h
+        cases ho : optimize2Loop (N := NumI) budget (optimize1 p).1 (optimize1 p).1.length 0 (St.init, (⟨splitLines input, [], []⟩ : World)) with
+        | error e => rw [ho] at h; cases h
+        | ok r' =>
+          rw [ho] at h
+          simp only [Except.ok.injEq, Prod.mk.injEq] at h
+          exact ⟨h.1.symm, h.2.1.symm⟩
+      · simp only [hl, ↓reduceIte, Except.ok.injEq, Prod.mk.injEq] at h
+        exact ⟨h.1.symm, h.2.1.symm⟩
+    have hokc : ∀ c ∈ code, AreaOk c.area := by
+      rw [hcode.1]
+      intro c hc
+      simp only [optimize1, List.mem_map] at hc
+      obtain ⟨d, hd, e⟩ := hc
+      subst e
+      unfold renumCmd; split <;> exact hok d hd
+    by_cases hl : level ≥ 2
+    · -- level 2
+      have ho : optimize2Loop (N := NumI) budget code code.length 0 (St.init, (⟨splitLines input, [], []⟩ : World)) = .ok r := by
+        unfold HyE.optimize at h
+        simp only [hl, ↓reduceIte] at h
+        rw [hcode.1]
+        cases ho : optimize2Loop (N := NumI) budget (optimize1 p).1 (optimize1 p).1.length 0 (St.init, (⟨splitLines input, [], []⟩ : World)) with
+        | error e => rw [ho] at h; cases h
+        | ok r' =>
+          rw [ho] at h
+          simp only [Except.ok.injEq, Prod.mk.injEq] at h
+          rw [h.2.2]
+      obtain ⟨j0, hj0⟩ := C02.level2_prefix budget code _ r ho
+      have hlt := optimize2Loop_lt budget code code.length 0 _ r ⟨by simp [St.init], by simp [St.init]⟩ (Nat.zero_le _) ho
+      have hctl : CtlOk code r.m.1 := iterOk_ctlOk code j0 _ _ hj0 ⟨by simp [St.init], by simp [St.init]⟩
+      have hsz : 3 < size := by rw [hcode.2]; simp [optimize1]; omega
+      have hsupp : Supp size r.m.1 :=
+        iterOk_supp code (by omega) (by rw [hcode.1, hcode.2]; exact renumber_lt_size p) j0 _ _ hj0
+          ⟨by show (3 : Nat) < size; exact hsz, fun i _ => rfl⟩
+      have hv : ∀ i, LR NE (r.m.1.stacks i) (r.m.1.stacks i) := by
+        have hrun := runN_iterOk code j0 _ _ hj0 0
+        have hsim := runN_sim neSim code (j0 + 0) (c := (⟨(St.init, ⟨splitLines input, [], []⟩), 0⟩ : Cfg NumI))
+          (c' := ⟨(St.init, ⟨splitLines input, [], []⟩), 0⟩) ⟨⟨⟨rfl, rfl, rfl, fun _ => .nil⟩, rfl⟩, rfl⟩
+        rcases hsim with hu | ⟨_, hrs⟩
+        · exact absurd hu (runN_spec' renderNumI_spec code _ _)
+        · rw [hrun] at hrs
+          simp only [runN] at hrs
+          exact hrs.stacks
+      obtain ⟨hc, ci, cm, bo, he, hb, hrel, hrc⟩ := entry_level2 level size hl code r.m.1 r.m.2 r.idx hlt.2 hlt.1 hctl hsupp hv hres input hstdin
+      obtain ⟨n, hn, hs⟩ := irRunN_sim hb hokc k hrel
+      refine ⟨n, hn, ?_⟩
+      simp only [Prog.run, hc, ↓reduceIte, he, Option.map_some]
+      rw [hs]
+      have hsim := runN_sim neSim code n hrc
+      rcases hsim with hu | ⟨ho2, _⟩
+      · exact absurd hu (runN_spec' renderNumI_spec code _ _)
+      · rw [seen_of_obs ho2, seen_of_obs (hj n)]; rfl
+    · -- level 1: nothing pre-executed
+      have hr : r = ⟨(St.init, ⟨splitLines input, [], []⟩), 0⟩ := by
+        unfold HyE.optimize at h
+        simp only [hl, ↓reduceIte, Except.ok.injEq, Prod.mk.injEq] at h
+        exact h.2.2.symm
+      subst hr
+      simp only [List.take_zero, List.drop_zero] at hres ⊢
+      obtain ⟨h1, h2, hb, hrel⟩ := entry_plain level size hl code hres input
+      obtain ⟨n, hn, hs⟩ := irRunN_sim hb hokc k hrel
+      refine ⟨n, hn, ?_⟩
+      simp only [Prog.run, h1, ↓reduceIte, h2, Option.map_some]
+      rw [hs, seen_of_obs (hj n)]; rfl
+
+/-- With C01: what the executable shows is what the language definition (mathematical rationals)
+prescribes — unless the definition leaves the run unspecified (a write of a value ≥ 2³²). -/
+theorem compiled_meets_definition (budget level : Nat) (hl1 : 1 ≤ level) (p : List Cmd) (hk : ∀ c ∈ p, c.kind ≤ 5)
+    (hh : ∀ c ∈ p, 1 ≤ c.hangul) (hok : ∀ c ∈ p, AreaOk c.area) (input : List Char)
+    (code : List Cmd) (size : Nat) (r : Opt2 NumI)
+    (h : HyE.optimize (N := NumI) budget level p ⟨splitLines input, [], []⟩ = .ok (code, size, r)) :
+    ∃ j, ∀ k, ∃ n, k ≤ n ∧ ((runN p (j + n) (specInit input)).2 = .stopped .unspecified ∨
+      (compile level size (code.take r.idx) r.m.1 (List.range size) r.m.2.out r.m.2.err (code.drop r.idx)).run input k =
+        some (seen (runN p (j + n) (specInit input)))) := by
+  obtain ⟨j, hj⟩ := compiled_equiv budget level hl1 p hk hh hok input code size r h
+  refine ⟨j, fun k => ?_⟩
+  obtain ⟨n, hn, hs⟩ := hj k
+  refine ⟨n, hn, ?_⟩
+  rcases C01.run_refines_spec p input (j + n) with hu | ⟨ho, _⟩
+  · exact Or.inl hu
+  · right
+    rw [hs]
+    simp only [obs, Prod.mk.injEq] at ho
+    simp only [seen, ho.1, ho.2.2]
+
+/-- non-vacuity: `형.♥ 형.. 항. 흑 항.♥`-like program with a label, a jump back and an exit, compiled at
+level 0: three blocks; the executable's loop prints and exits as the interpreter does -/
+example : ((compile 0 0 [] (St.init : St NumI) [] [] []
+      [⟨0, 1, 8, 8, .val 3 .nil .nil⟩, ⟨0, 1, 9, 9, .nil⟩, ⟨1, 1, 1, 1, .nil⟩, ⟨5, 1, 1, 1, .val 0 .nil .nil⟩]).blocks.length = 3) := by
+  decide
 
 end HyC.C03
